@@ -18,6 +18,7 @@ Oracle: on the real output only: np.isfinite everywhere; an entry whose unsaniti
 from __future__ import annotations
 
 import math
+import zlib
 
 import numpy as np
 
@@ -94,11 +95,46 @@ def closure_cases(rng, full=False):
         ("huge:c*ps", 4e19 * Vc.VectorPowerSum(x, 0.5)), ("huge:exp+inv", exp(a * 7.0) + 1.0 / b), ("huge:a/b", a / b + sqrt(a)),
         ("huge:dot*c+l2", 1e19 * Vc.DotProduct(x, x) + Vc.L2Norm(x)),
     ]
+    gens += [("tiny:coef*sqrt", 2.0 ** -40 * sqrt(a) + b), ("tiny:lc+log", Vc.LinearCombination(np.array([2.0 ** -930, 2.0 ** -30, 1.0]), x) + log(x[1])),
+             ("tiny:c*us", 2.0 ** -60 * Vc.VectorUnarySum(x, "log"))]
     for tag, e in gens:
         V = sorted({v.name: v for v in gen.expr_vars(e)}.values(), key=lambda v: v.name)
         for kind in ("grad", "jac", "hess"):
             out.append((f"gen:{tag}", kind, e, V, None))
     out += reduction_compositions(rng, U, full)
+    # dimension checklist 3 / 4 / 2: every operator form, compound constants, typed constants around the singular vector sums at the
+    # ROOT (the compilers dispatch on the root node: a wrapper decides which closure — and which sanitising — is used)
+    roots = [("ps0.5:x", Vc.VectorPowerSum(x, 0.5), list(x)), ("ps-1:x|sparse", Vc.VectorPowerSum(x, -1), [a] + list(x)),
+             ("uslog:x", Vc.VectorUnarySum(x, "log"), list(x)), ("ussqrt:x|span", Vc.VectorUnarySum(x, "sqrt"), [x[0], a, x[2], x[1]]),
+             ("usabs:x", Vc.VectorUnarySum(x, "abs"), list(x)), ("l2:x", Vc.L2Norm(x), list(x)), ("fro:S", Mx.FrobeniusNorm(S), None),
+             ("lc+log", Vc.LinearCombination(np.array([1.0, -2.0, 0.5]), x) + log(x[0]), list(x))]
+    wr = J.wrappers(U)[1:] + J.extended_wrappers(U)
+    for ri, (rt, node, V) in enumerate(roots):
+        if V is None:
+            V = sorted({v.name: v for v in gen.expr_vars(node)}.values(), key=lambda v: v.name)
+        for wi, (wn, wf) in enumerate(wr):
+            if (ri + wi) % (2 if full else 6) != 0:
+                continue
+            e = J.grab(lambda: wf(node))
+            if isinstance(e, str):
+                continue
+            VV = V if J.names_of([e]) <= {v.name for v in V} else V + [v for v in gen.expr_vars(e) if v.name not in {u.name for u in V}]
+            pts = points_for(rng, len(VV), False)
+            pts = pts if full else pts[(ri + wi) % 3::3]
+            for kind in ("grad", "jac", "hess"):
+                out.append((f"wrap:{rt}|{wn}", kind, e, VV, pts))
+    # checklist 5: singular reductions over every operand kind (views of views, symmetric blocks with shared variables, 1×n, …)
+    anodes, askip = J.audit_nodes(rng, U)
+    for tag, node in anodes:
+        if not tag.startswith(("l2:", "l1:", "fro:", "uslog:", "ps3:")) or (not full and zlib.crc32(tag.encode()) % 2):
+            continue
+        V = J.own_vars(node)
+        if len(V) > 6:
+            continue
+        pts = points_for(rng, len(V), False)
+        pts = pts if full else pts[zlib.crc32(tag.encode()) % 3::3]
+        for kind in ("grad", "jac", "hess"):
+            out.append((f"operand:{tag}", kind, node, list(V), pts))
     return [c if len(c) == 5 else c + (None,) for c in out]
 
 
@@ -206,7 +242,7 @@ def points_for(rng, n, thorough):
     return pts
 
 
-def sequences_for(rng, n, thorough, own_pts=None):
+def sequences_for(rng, n, thorough, own_pts=None, n_params=0):
     """call sequences over the singular / regular points of an n-variable closure"""
     pts = own_pts if own_pts is not None else points_for(rng, n, False)
     sing = pts[:-2] if len(pts) > 2 else pts
@@ -226,6 +262,10 @@ def sequences_for(rng, n, thorough, own_pts=None):
             twins = (a, b)
         for name, steps in J.standard_sequences(rng, p, q, twins):
             out.append((f"{name}#{k}", steps))
+    if n_params:
+        p = picks[0]
+        out.append(("parameter-to-zero", [("new", p), ("set", 0, 0.0), ("new", p), ("again",), ("set", 0, 1.0), ("new", p), ("set", 0, -1.5),
+                                          ("same", p), ("set", 0, 0.0), ("again",), ("new", reg)]))
     return out
 
 
@@ -349,7 +389,12 @@ def run(ctx) -> core.Report:
             params = J.all_params([e])
             es_s, V_s, store = J.ser_case([e], V, params)
         except Unsupported as ex:
-            rep.skipped["unsupported:" + str(ex)] = rep.skipped.get("unsupported:" + str(ex), 0) + 1
+            # outside the Lean syntax (bool constants, …): the property oracle on the real code still applies
+            rep.skipped["model-unsupported(oracle only):" + str(ex)] = rep.skipped.get("model-unsupported(oracle only):" + str(ex), 0) + 1
+            for xs in (own_pts if own_pts is not None else points_for(rng, len(V), False)[::4]):
+                for f in check_real(kind, e, V, xs):
+                    f["exprs_repr"] = [repr(e)[:200]]; f["V_names"] = [v.name for v in V]; f["x"] = xs; f["tag"] = tag; f["deriv"] = kind
+                    rep.oracle_failures.append(f)
             continue
         E = es_s[0] if kind != "jac" else J.plist(es_s)
         VV = J.plist(V_s)
@@ -446,15 +491,21 @@ def run(ctx) -> core.Report:
     for tag, kind, e, V, own_pts in cases:
         if not V or (own_pts is not None and not thorough and rng.random() < 0.7):
             continue
-        seqs = sequences_for(rng, len(V), thorough, own_pts)
+        seqs = sequences_for(rng, len(V), thorough, own_pts, len(J.all_params([e])))
         fails, n_calls = J.check_sequences(kind, [e], V, seqs, require_finite=True)
         n_seq_calls += n_calls
         for f in fails:
-            f.update(J.payload_of([e], V, f["x"], J.all_params([e])))
+            f.update(J.safe_payload([e], V, f["x"]))
             f["tag"] = tag
             f["require_finite"] = True
             rep.oracle_failures.append(f)
     rep.histogram["sequence_calls"] = n_seq_calls
+    # a sample of (closure, point) pairs again with every recursion threshold forced low
+    with J.forced_thresholds(2):
+        for tag, kind, e, V, xs, params, idx in metas[::(5 if thorough else 23)]:
+            for f in check_real(kind, e, V, xs):
+                f.update(J.payload_of([e], V, xs, params)); f["tag"] = tag + "|threshold=2"; f["deriv"] = kind; f["thresholds_forced"] = 2
+                rep.oracle_failures.append(f)
     rep.evaluations += n_seq_calls
 
     for tag, g, point, idx in ev_metas:
@@ -488,14 +539,35 @@ def run(ctx) -> core.Report:
 
 def search(ctx, rep):
     rng = core.Rng(ctx["seed"] + 32452843)
+    # (1) the disagreeing cases of this run first: at their own point, then at every singular / near-singular point
+    seen = set()
+    for mm in rep.corr_mismatches[:300]:
+        if "exprs" not in mm:
+            continue
+        key = (tuple(mm["exprs"]), tuple(mm["V"]))
+        if key in seen:
+            continue
+        seen.add(key)
+        try:
+            es, V, xs = J.rebuild(mm)
+        except Exception:  # noqa: BLE001
+            continue
+        for kind in ("grad", "jac", "hess"):
+            for pt in [xs] + points_for(rng, len(V), True):
+                fails = check_real(kind, es[0], V, pt)
+                if fails:
+                    f = fails[0]
+                    f.update(J.payload_of(es, V, pt, J.all_params(es)))
+                    f["tag"] = mm.get("tag", "mismatch"); f["deriv"] = kind
+                    return f
     for rnd in range(3):
         for tag, kind, e, V, own_pts in closure_cases(rng, True):
             if V:
-                sf, _ = J.check_sequences(kind, [e], V, sequences_for(rng, len(V), True, own_pts), require_finite=True)
+                sf, _ = J.check_sequences(kind, [e], V, sequences_for(rng, len(V), True, own_pts, len(J.all_params([e]))), require_finite=True)
                 if sf:
                     f = sf[0]
                     try:
-                        f.update(J.payload_of([e], V, f["x"], J.all_params([e])))
+                        f.update(J.safe_payload([e], V, f["x"]))
                     except Unsupported:
                         continue
                     f["tag"] = tag
@@ -525,10 +597,17 @@ def replay(payload) -> bool:
         ok = [float(v) for v in res] == [expected_from_raw(v) for v in arr]
         print("sanitize:", list(res))
         return ok
+    if "exprs" not in f and "array" not in f:
+        print("no serialisable expression (outside the Lean syntax):", {k: f[k] for k in f if k not in ("got", "want")})
+        return False
     if f.get("kind") == "call-sequence":
         return J.replay_sequence(f)
     es, V, xs = J.rebuild(f)
-    fails = check_real(f.get("deriv", "grad"), es[0], V, xs)
+    if f.get("thresholds_forced") is not None:
+        with J.forced_thresholds(int(f["thresholds_forced"])):
+            fails = check_real(f.get("deriv", "grad"), es[0], V, xs)
+    else:
+        fails = check_real(f.get("deriv", "grad"), es[0], V, xs)
     for g in fails:
         print("FAIL:", g)
     return not fails
